@@ -410,6 +410,16 @@ func rulesC09(c *Ctx) {
 				_ = w
 				extra++
 			}
+			// every attempt waits on a timer of its own: the channel the select waits on is produced inside the loop body
+			// (time.After(delay)), or a timer created outside is Reset inside; a timer armed once fires once, and the second
+			// attempt would wait for ever
+			fresh := false
+			for _, call := range cs.AllCalls(fs.Body, true) {
+				if fn := cs.Callee(call); fn != nil && fn.Pkg() != nil && fn.Pkg().Path() == "time" && (fn.Name() == "After" || fn.Name() == "NewTimer" || fn.Name() == "Reset") {
+					fresh = true
+				}
+			}
+			c.Check(fresh, "connectSSE:a-timer-per-attempt", cs, fs, "the back-off wait is armed anew in every iteration (time.After / NewTimer / Reset inside the loop)")
 			c.Check(extra == 0 && ctr != nil, "connectSSE:one-attempt-per-failure", cs, fs, "the attempt counter is not modified inside the loop body (%d extra writes): with the default budget of 5 a client must survive 5 failed reconnects, not 3", extra)
 		})
 		c.Check(okLoop, "connectSSE:bounded-abortable", cs, nil, "reconnect attempts are bounded by maxRetries and each wait can be aborted by Close or by the caller's context")
